@@ -1,2 +1,745 @@
-// Package c07: (not built yet)
+// Package c07: routers take the exit their definition prescribes.
+//
+// Every case is one real engine session over a one-router flow; the oracle is a reference decision
+// list (model.go) that evaluates the operand and the (localized) arguments on its own through the
+// evaluator, calls the registered test and applies the rule of the property statement.
 package c07
+
+import (
+	"encoding/json"
+	"fmt"
+	"math"
+	"math/big"
+	"sort"
+	"strings"
+	"time"
+
+	"verif/mc"
+)
+
+// ---- structural schemes -----------------------------------------------------------------------
+
+var catMaps = []string{"distinct", "dup", "default-shared", "dupname"}
+var exitMaps = []string{"identity", "reversed", "all-one", "first-two-share"}
+var waitModes = []string{"nowait", "wait+msg", "wait+timeoutcat+msg", "wait+timeoutcat+timeout"}
+
+// BuildSwitch assembles a switch router from a case list and a structural scheme; nil when the
+// scheme does not apply to the list (it would repeat another scheme).
+func BuildSwitch(op Operand, atoms []Atom, catMap, exitMap int, def, resName bool, waitMode int, lang string) *Router {
+	m := len(atoms)
+	r := &Router{Type: "switch", Operand: op, Cases: atoms, Default: -1, Timeout: -1, Lang: lang,
+		Scheme: catMaps[catMap] + "/" + exitMaps[exitMap] + "/" + waitModes[waitMode]}
+	name := func(i int) string { return fmt.Sprintf("Cat%d", i) }
+	other := "Other"
+	switch catMap {
+	case 0:
+	case 1:
+		if m < 2 {
+			return nil
+		}
+	case 2:
+		if m < 1 || !def {
+			return nil
+		}
+	case 3:
+		if m < 1 {
+			return nil
+		}
+		name = func(int) string { return "Same" }
+		other = "Same"
+	}
+	if catMap == 1 {
+		r.Cats = append(r.Cats, Cat{Name: name(0)})
+		for range atoms {
+			r.CatOf = append(r.CatOf, 0)
+		}
+	} else {
+		for i := range atoms {
+			r.Cats = append(r.Cats, Cat{Name: name(i)})
+			r.CatOf = append(r.CatOf, i)
+		}
+	}
+	r.Cats = append(r.Cats, Cat{Name: other})
+	if def {
+		r.Default = len(r.Cats) - 1
+		if catMap == 2 {
+			r.Default = 0
+		}
+	}
+	switch waitMode {
+	case 1:
+		r.Wait, r.Resume = true, "msg"
+	case 2, 3:
+		r.Wait, r.Resume = true, "msg"
+		if waitMode == 3 {
+			r.Resume = "timeout"
+		}
+		r.Cats = append(r.Cats, Cat{Name: "No Response"})
+		r.Timeout = len(r.Cats) - 1
+	}
+	if !assignExits(r, exitMap) {
+		return nil
+	}
+	if resName {
+		r.ResultName = "Res"
+	}
+	return r
+}
+
+func assignExits(r *Router, exitMap int) bool {
+	k := len(r.Cats)
+	r.NExits = k
+	r.ExitDest = make([]bool, k)
+	for i := range r.ExitDest {
+		r.ExitDest[i] = true
+	}
+	for j := range r.Cats {
+		switch exitMap {
+		case 0:
+			r.Cats[j].Exit = j
+		case 1:
+			if k < 2 {
+				return false
+			}
+			r.Cats[j].Exit = k - 1 - j
+		case 2:
+			if k < 2 {
+				return false
+			}
+			r.Cats[j].Exit = 0
+		case 3:
+			if k < 3 {
+				return false
+			}
+			r.Cats[j].Exit = j
+			if j == 1 {
+				r.Cats[j].Exit = 0
+			}
+		}
+	}
+	return true
+}
+
+// BuildRandom assembles a random router with n categories.
+func BuildRandom(n, exitMap int, resName bool, draw uint64) *Router {
+	r := &Router{Type: "random", Default: -1, Timeout: -1, Lang: langBase, Draw: draw, Operand: Operand{Name: "draw", Input: defaultInput},
+		Scheme: "random/" + exitMaps[exitMap]}
+	for i := 0; i < n; i++ {
+		r.Cats = append(r.Cats, Cat{Name: fmt.Sprintf("Bucket %d", i+1)})
+	}
+	if !assignExits(r, exitMap) {
+		return nil
+	}
+	if resName {
+		r.ResultName = "Res"
+	}
+	return r
+}
+
+// RandomDraws are the boundary draws for n categories, as Int63 values i of the random source
+// (rand.Float64 returns float64(i) / 2^63; every float64 in [2^-11, 1) is such a value): 0; for every
+// internal boundary k/n the largest float64 below it, the smallest float64 at or above it, and the
+// same two on the coarser 2^-53 grid; the largest draw 1 - 2^-53; mid adds the middle of every bucket.
+func RandomDraws(n int, mid bool) []uint64 {
+	const two63 = float64(1 << 63)
+	const one53 = uint64(1) << 53
+	toI := func(f float64) uint64 { return uint64(f * two63) } // exact for f >= 2^-11
+	set := map[uint64]bool{0: true, (one53 - 1) << 10: true}
+	for k := 1; k < n; k++ {
+		exact := big.NewRat(int64(k), int64(n))
+		hi := float64(k) / float64(n)
+		if new(big.Rat).SetFloat64(hi).Cmp(exact) < 0 {
+			hi = math.Nextafter(hi, 1)
+		}
+		lo := math.Nextafter(hi, 0)
+		set[toI(hi)] = true
+		set[toI(lo)] = true
+		g := (uint64(k)*one53 + uint64(n) - 1) / uint64(n) // ceil(k*2^53/n)
+		set[g<<10] = true
+		set[(g-1)<<10] = true
+	}
+	if mid {
+		for k := 0; k < n; k++ {
+			set[toI((2*float64(k)+1)/(2*float64(n)))] = true
+		}
+	}
+	var out []uint64
+	for d := range set {
+		out = append(out, d)
+	}
+	sort.Slice(out, func(i, j int) bool { return out[i] < out[j] })
+	return out
+}
+
+// ---- the oracle -------------------------------------------------------------------------------
+
+type verdict struct {
+	OK        bool
+	Undecided string
+	Aspect    string // what disagreed
+	Got       string
+	Detail    string
+	Exp       *Expect // the expectation that was matched, or the first one when none was
+}
+
+func mismatch(r *Router, e *Expect, o *Observed) (aspect, got, detail string) {
+	if o.Panic != "" {
+		return "panic", mc.PanicSite(o.Panic), o.Panic
+	}
+	if o.EngineErr != "" {
+		return "engine-error", "error", o.EngineErr
+	}
+	wantSegs := func(exit int, judgeOperand bool, operand string) (string, string, string) {
+		if exit >= 0 && r.ExitDest[exit] {
+			if len(o.Segments) != 1 {
+				return "segment", fmt.Sprintf("%d-segments", len(o.Segments)), fmt.Sprintf("want one segment via exit %d", exit)
+			}
+			s := o.Segments[0]
+			if s.Exit != exit || s.Dest != exit {
+				return "segment", "other-exit-or-destination", fmt.Sprintf("segment exit=%d dest=%d, want exit=%d dest=%d", s.Exit, s.Dest, exit, exit)
+			}
+			if judgeOperand && s.Operand != operand {
+				return "segment-operand", "differs", fmt.Sprintf("segment operand %q, want %q", s.Operand, operand)
+			}
+		} else if len(o.Segments) != 0 {
+			return "segment", "unexpected-segment", fmt.Sprintf("%d segments for a step that goes nowhere", len(o.Segments))
+		}
+		return "", "", ""
+	}
+	switch {
+	case e.Via == "first-exit":
+		if o.Exit != 0 {
+			return "exit", exitClass(r, e, o), fmt.Sprintf("step left by exit %d, want the first exit", o.Exit)
+		}
+		wantNext := -1
+		if r.ExitDest[0] {
+			wantNext = 0
+		}
+		if o.NextDest != wantNext {
+			return "destination", "differs", fmt.Sprintf("next node d%d, want d%d", o.NextDest, wantNext)
+		}
+		if o.RunStatus != "completed" || o.SessStatus != "completed" {
+			return "status", o.RunStatus + "/" + o.SessStatus, "run should complete"
+		}
+		return wantSegs(0, false, "")
+	case e.Cat < 0:
+		// no category selected: the run fails, nothing is chosen
+		if o.Exit != -1 || o.Steps != 1 || o.NextDest != -1 {
+			return "exit", exitClass(r, e, o), fmt.Sprintf("no category should be selected but the step left by exit %d (next d%d)", o.Exit, o.NextDest)
+		}
+		if o.RunStatus != "failed" || o.SessStatus != "failed" {
+			return "status", o.RunStatus + "/" + o.SessStatus, "a router that selects no category must fail the run"
+		}
+		if len(o.Segments) != 0 {
+			return "segment", "unexpected-segment", "segment logged although no exit was taken"
+		}
+		return "", "", ""
+	}
+	cat := r.Cats[e.Cat]
+	if o.Exit != cat.Exit {
+		return "exit", exitClass(r, e, o), fmt.Sprintf("step left by exit %d, want exit %d of category %d (%s)", o.Exit, cat.Exit, e.Cat, e.Via)
+	}
+	if o.NextDest != cat.Exit {
+		return "destination", "differs", fmt.Sprintf("next node d%d, want d%d", o.NextDest, cat.Exit)
+	}
+	if o.RunStatus != "completed" || o.SessStatus != "completed" {
+		return "status", o.RunStatus + "/" + o.SessStatus, "run should complete after leaving by the category's exit"
+	}
+	if a, g, d := wantSegs(cat.Exit, e.JudgeInput && r.Type == "switch" && e.Via != "timeout", e.Input); a != "" {
+		return a, g, d
+	}
+	if r.ResultName != "" {
+		if !o.HasResult {
+			return "result", "missing", "no result saved although a result name is set"
+		}
+		if o.ResCat != cat.Name {
+			return "result-category", "differs", fmt.Sprintf("result category %q, want %q", o.ResCat, cat.Name)
+		}
+		if e.JudgeValue && o.ResValue != e.Value {
+			return "result-value", valueClass(r, e, o), fmt.Sprintf("result value %q, want %q", o.ResValue, e.Value)
+		}
+		if e.JudgeInput && o.ResInput != e.Input {
+			return "result-input", "differs", fmt.Sprintf("result input %q, want %q", o.ResInput, e.Input)
+		}
+		if len(o.EvResults) != 1 {
+			return "result-event", fmt.Sprintf("%d-events", len(o.EvResults)), "want exactly one run_result_changed for the router's result"
+		}
+		ev := o.EvResults[0]
+		if ev.Category != cat.Name || (e.JudgeValue && ev.Value != e.Value) {
+			return "result-event", "differs", fmt.Sprintf("run_result_changed category=%q value=%q, want %q %q", ev.Category, ev.Value, cat.Name, e.Value)
+		}
+	}
+	return "", "", ""
+}
+
+// exitClass describes an unexpected exit relative to the definition (for signature keys).
+func exitClass(r *Router, e *Expect, o *Observed) string {
+	if o.Exit == -1 {
+		if o.RunStatus == "failed" {
+			return "none+failed"
+		}
+		return "none"
+	}
+	if o.Exit < 0 {
+		return "unknown-exit"
+	}
+	var who []string
+	for i, c := range r.CatOf {
+		if r.Cats[c].Exit == o.Exit {
+			w := "earlier-case"
+			if strings.HasPrefix(e.Via, "case") {
+				var ei int
+				fmt.Sscanf(e.Via, "case%d", &ei)
+				if i > ei {
+					w = "later-case"
+				} else if i == ei {
+					w = "same-case"
+				}
+			} else {
+				w = "a-case"
+			}
+			who = append(who, w)
+		}
+	}
+	if r.Default >= 0 && r.Cats[r.Default].Exit == o.Exit {
+		who = append(who, "default")
+	}
+	if r.Timeout >= 0 && r.Cats[r.Timeout].Exit == o.Exit {
+		who = append(who, "timeout")
+	}
+	if r.Type == "random" {
+		return fmt.Sprintf("bucket%+d", o.Exit-r.Cats[e.Cat].Exit)
+	}
+	if len(who) == 0 {
+		return "unused-exit"
+	}
+	sort.Strings(who)
+	return strings.Join(uniq(who), "+")
+}
+
+func valueClass(r *Router, e *Expect, o *Observed) string {
+	switch {
+	case o.ResValue == e.Input && e.JudgeInput:
+		return "is-operand"
+	case o.ResValue == "":
+		return "empty"
+	}
+	return "differs"
+}
+
+func uniq(xs []string) []string {
+	var out []string
+	for i, x := range xs {
+		if i == 0 || x != xs[i-1] {
+			out = append(out, x)
+		}
+	}
+	return out
+}
+
+// Judge compares what the engine did with every behaviour the statement allows.
+func Judge(r *Router, exps []Expect, o *Observed) verdict {
+	var first verdict
+	for i := range exps {
+		e := &exps[i]
+		if e.Undecided != "" {
+			return verdict{OK: true, Undecided: e.Undecided, Exp: e}
+		}
+		a, g, d := mismatch(r, e, o)
+		if a == "" {
+			return verdict{OK: true, Exp: e}
+		}
+		if i == 0 {
+			first = verdict{Aspect: a, Got: g, Detail: d, Exp: e}
+		}
+	}
+	return first
+}
+
+func traceClass(tr []string) string {
+	if len(tr) == 0 {
+		return "-"
+	}
+	return strings.Join(tr, ">")
+}
+
+func viaClass(via string) string {
+	if strings.HasPrefix(via, "case") {
+		return "case"
+	}
+	return via
+}
+
+// locClass tells whether localized arguments were in play (for signature keys).
+func locClass(r *Router) string {
+	if r.Lang != langTr {
+		return "base-args"
+	}
+	for _, a := range r.Cases {
+		if a.Tr != nil {
+			return "localized-args"
+		}
+	}
+	return "base-args"
+}
+
+// check executes one router, judges it and records everything.
+func check(c *mc.Ctx, m *Model, r *Router, family string) {
+	exps, err := m.Expectations(r)
+	if err != nil {
+		c.Violation("harness:reference-model", "reference model failed: "+err.Error(), r)
+		return
+	}
+	o := r.Execute()
+	c.Inc("evaluations")
+	c.Inc("sessions:" + family)
+	if o.HarnessErr != "" {
+		c.Violation("harness:"+family+":"+mc.Hash(o.HarnessErr), "the generated definition was not accepted: "+o.HarnessErr+"\nrouter: "+mc.JSON(r), r)
+		return
+	}
+	v := Judge(r, exps, o)
+	if v.Undecided != "" {
+		c.Inc("not_judged:" + v.Undecided)
+		return
+	}
+	if !v.OK {
+		key := fmt.Sprintf("%s:%s:want=%s:got=%s:trace=%s:%s", r.Type, v.Aspect, viaClass(v.Exp.Via), v.Got, traceClass(v.Exp.Trace), locClass(r))
+		what := fmt.Sprintf("%s\nrouter: %s\nallowed: %s\nobserved: %s", v.Detail, mc.JSON(r), describe(exps), mc.JSON(o))
+		c.Violation(key, what, r)
+		return
+	}
+	// bookkeeping for the evidence and the vacuity guards
+	e := v.Exp
+	nontrivial := r.Type != "switch" || e.Via == "timeout"
+	for i, k := range e.Trace {
+		if k == "match" || k == "error" {
+			nontrivial = true
+		}
+		c.Fact(k + ":" + r.Cases[i].Test)
+		c.Fact(k + ":kind:" + r.Cases[i].Kind)
+	}
+	if nontrivial {
+		c.Inc("distinct_nontrivial")
+	}
+	c.Outcome(fmt.Sprintf("%s via=%s trace=%s", r.Type, viaClass(e.Via), traceClass(e.Trace)))
+	c.Fact("via:" + viaClass(e.Via))
+	if len(e.Trace) >= 2 && e.Trace[len(e.Trace)-1] == "match" {
+		c.Fact("match-after:" + e.Trace[len(e.Trace)-2])
+	}
+	if len(exps) > 1 && e.Choices != "" {
+		// a translation with a different number of arguments: record which reading the engine follows
+		distinct := false
+		for i := range exps {
+			if a, _, _ := mismatch(r, &exps[i], o); a != "" {
+				distinct = true
+			}
+		}
+		if distinct {
+			c.Fact("translation-of-different-length:engine-used-" + map[byte]string{'b': "base", 't': "translation"}[e.Choices[0]] + "-arguments")
+		}
+	}
+	if r.Lang == langTr && e.Choices == "" {
+		for i, k := range e.Trace {
+			a := r.Cases[i]
+			if a.Tr != nil && len(a.Tr) == len(a.Args) {
+				c.Fact("localized-arguments-decided:" + k)
+			}
+		}
+	}
+	if r.Type == "switch" && r.ResultName != "" && e.Cat >= 0 {
+		if e.JudgeValue {
+			c.Inc("result_values_judged")
+		} else {
+			c.Inc("result_values_not_judged(operand is an error)")
+		}
+	}
+	if r.Type == "random" {
+		c.Fact(fmt.Sprintf("random:n=%d:bucket=%d", len(r.Cats), e.Cat))
+	}
+	if r.Type == "none" {
+		c.Fact(fmt.Sprintf("none:exits=%d", r.NExits))
+	}
+	if r.Resume != "" {
+		c.Fact("resume:" + r.Resume)
+	}
+	if c.WantSample() && len(r.Cases) >= 2 && e.Trace != nil && e.Trace[0] == "error" && strings.HasPrefix(e.Via, "case") {
+		c.Sample(map[string]any{"router": r, "expected": describe(exps), "observed": o})
+	}
+}
+
+func describe(exps []Expect) string {
+	var parts []string
+	for _, e := range exps {
+		if e.Undecided != "" {
+			parts = append(parts, "undecided("+e.Undecided+")")
+			continue
+		}
+		s := fmt.Sprintf("%s->cat %d trace=%s", e.Via, e.Cat, traceClass(e.Trace))
+		if e.JudgeValue {
+			s += fmt.Sprintf(" value=%q", e.Value)
+		}
+		if e.JudgeInput {
+			s += fmt.Sprintf(" input=%q", e.Input)
+		}
+		if e.Choices != "" {
+			s += " args-assumed=" + e.Choices
+		}
+		parts = append(parts, s)
+	}
+	return strings.Join(parts, " | ")
+}
+
+// ---- enumeration ------------------------------------------------------------------------------
+
+// lists calls f for every list of atoms of exactly n elements over the alphabet.
+func lists(alpha []Atom, n int, f func([]Atom)) {
+	cur := make([]Atom, n)
+	var rec func(i int)
+	rec = func(i int) {
+		if i == n {
+			f(append([]Atom{}, cur...))
+			return
+		}
+		for _, a := range alpha {
+			cur[i] = a
+			rec(i + 1)
+		}
+	}
+	rec(0)
+}
+
+func langsFor(atoms []Atom) []string {
+	for _, a := range atoms {
+		if a.Tr != nil {
+			return []string{langBase, langTr}
+		}
+	}
+	return []string{langBase}
+}
+
+func run(c *mc.Ctx) {
+	m := NewModel()
+	full, reduced, triple, core := alphabets()
+	c.Max("atoms_full", int64(len(full)))
+	c.Max("atoms_reduced", int64(len(reduced)))
+	c.Max("atoms_triple", int64(len(triple)))
+	c.Max("registered_tests", int64(len(Tests())))
+	for _, t := range Tests() {
+		if _, ok := testVectors[t]; !ok {
+			c.Note("registered test without hand-written argument vectors (exercised with 0 and 1 arguments only): " + t)
+		}
+	}
+	idx := 0
+	expired := false
+	unit := func(f func()) {
+		if expired {
+			return
+		}
+		mine := c.Mine(idx)
+		idx++
+		if !mine {
+			return
+		}
+		if c.Expired() {
+			expired = true
+			return
+		}
+		f()
+	}
+
+	// family T (tests product): every case list up to the length bound over the alphabet, with and
+	// without default, every operand, both contact languages where a case is localized; plain
+	// structure (one category and exit per case, result name set, no wait).
+	tests := func(alpha []Atom, n int, family string) {
+		lists(alpha, n, func(l []Atom) {
+			unit(func() {
+				for _, def := range []bool{true, false} {
+					for _, op := range Operands {
+						for _, lang := range langsFor(l) {
+							check(c, m, BuildSwitch(op, l, 0, 0, def, true, 0, lang), family)
+						}
+					}
+				}
+			})
+		})
+	}
+	// family S (structure product): case lists over the core atoms crossed with every category
+	// assignment, exit assignment, default, result name and wait/resume mode.
+	structure := func(n int) {
+		lists(core, n, func(l []Atom) {
+			for _, op := range Operands {
+				unit(func() {
+					for cm := range catMaps {
+						for em := range exitMaps {
+							for _, def := range []bool{true, false} {
+								for _, rn := range []bool{true, false} {
+									for wm := range waitModes {
+										for _, lang := range langsFor(l) {
+											if r := BuildSwitch(op, l, cm, em, def, rn, wm, lang); r != nil {
+												check(c, m, r, "structure")
+											}
+										}
+									}
+								}
+							}
+						}
+					}
+				})
+			}
+		})
+	}
+
+	tests(full, 0, "tests:len0")
+	tests(full, 1, "tests:len1")
+	if c.Quick() {
+		tests(reduced, 2, "tests:len2")
+		structure(0)
+		structure(1)
+		structure(2)
+	} else {
+		tests(full, 2, "tests:len2")
+		tests(triple, 3, "tests:len3")
+		structure(0)
+		structure(1)
+		structure(2)
+		structure(3)
+	}
+
+	// random routers
+	for n := 2; n <= 4; n++ {
+		for _, d := range RandomDraws(n, c.Thorough()) {
+			unit(func() {
+				for em := range exitMaps {
+					for _, rn := range []bool{true, false} {
+						if r := BuildRandom(n, em, rn, d); r != nil {
+							check(c, m, r, "random")
+						}
+					}
+				}
+			})
+		}
+	}
+	// nodes without a router: 1..2 exits, each with or without a destination (a node with no exits
+	// is not a valid definition, which is checked too)
+	unit(func() {
+		for n := 0; n <= 2; n++ {
+			for mask := 0; mask < 1<<n; mask++ {
+				r := &Router{Type: "none", Default: -1, Timeout: -1, Lang: langBase, NExits: n, Operand: Operand{Name: "-", Input: defaultInput}, Scheme: "none"}
+				for i := 0; i < n; i++ {
+					r.ExitDest = append(r.ExitDest, mask&(1<<i) != 0)
+				}
+				if n == 0 {
+					if o := r.Execute(); o.HarnessErr != "" {
+						c.Fact("none:exits=0:definition-rejected")
+					} else {
+						c.Note("a node without exits was accepted by the definition reader")
+					}
+					continue
+				}
+				check(c, m, r, "none")
+			}
+		}
+	})
+	if expired {
+		c.Cap("time budget reached: the families are enumerated in a fixed order (tests product by list length, structure product, random, no router) and every unit before the cap was checked completely")
+	}
+}
+
+// ---- replay and registration --------------------------------------------------------------------
+
+func replayFn(c *mc.Ctx, raw json.RawMessage) (string, bool) {
+	var r Router
+	if err := json.Unmarshal(raw, &r); err != nil {
+		return "bad replay: " + err.Error(), false
+	}
+	m := NewModel()
+	exps, err := m.Expectations(&r)
+	if err != nil {
+		return "reference model failed: " + err.Error(), false
+	}
+	o := r.Execute()
+	def, _ := json.Marshal(r.Definition())
+	v := Judge(&r, exps, o)
+	out := fmt.Sprintf("router: %s\ndefinition: %s\nallowed by the statement: %s\nobserved: %s\n", mc.JSON(r), def, describe(exps), mc.JSON(o))
+	if o.HarnessErr != "" {
+		return out + "HARNESS: " + o.HarnessErr, true
+	}
+	if v.Undecided != "" {
+		return out + "not judged: " + v.Undecided, false
+	}
+	if !v.OK {
+		return out + fmt.Sprintf("PROBLEM %s (%s): %s", v.Aspect, v.Got, v.Detail), true
+	}
+	return out + "agrees with: " + describe([]Expect{*v.Exp}), false
+}
+
+func init() {
+	mc.Register(&mc.Check{
+		ID:    "C07",
+		Level: "exploration",
+		Rule: "every case is one session of the real engine over a flow whose first node carries the router under test, with one distinct destination node per exit; the oracle is a reference decision list that evaluates operand and (localized) arguments itself, calls the registered test and applies the statement. " +
+			"Enumerated exhaustively: (T) switch routers with every case list of length 0..2 (thorough: ..3) over an alphabet of atoms = registered test (all of cases.XTESTS, read from the registry) x argument vector {literal hit, literal miss, expression form, argument evaluating to an error, one argument too many, localized base-hits/translation-misses, localized base-misses/translation-hits, translation of different length, second literal} " +
+			"(lengths 0..1: all atoms; length 2: quick = the literal atom of every test + all atoms of 6 representative tests, thorough = all atoms; length 3 (thorough): the literal atom of every test + all atoms of 2 representative tests) x {default, no default} x 13 operands (5 texts arriving as contact input, number, datetime, nil, error, result object, group array, classification result, mixed template) x contact language {base, translated (when a case is localized)}; " +
+			"(S) case lists of length 0..2 (thorough ..3) over 6 core atoms x 13 operands x 4 category assignments (distinct, cases sharing a category, default sharing a case's category, equal names) x 4 exit assignments (identity, reversed, all categories one exit, two categories sharing an exit) x default x result name x {no wait, msg wait + msg resume, wait with timeout + msg resume, wait with timeout + timeout resume} x language; " +
+			"(R) random routers with 2..4 categories x boundary draws {0, largest float64 below k/n, smallest float64 >= k/n, the same on the 2^-53 grid, 1-2^-53} (thorough: + bucket middles) x exit assignments x result name; (N) nodes without router with 1..2 exits x each exit with/without destination (0 exits: definition rejected). " +
+			"Every (router, operand, language, resume) is distinct by construction; distinct_nontrivial counts the sessions in which the decision list did real work (some case matched or errored) plus all timeout, random and router-less sessions.",
+		Assumptions: []string{
+			"the evaluator, the type conversions and the registered test functions are the substrate shared by engine and reference model (their own correctness is the subject of other properties); the reference obtains its evaluation context from a separate session over a flow with the same actions and no router",
+			"the statement does not say which arguments are compared when a translation has a different number of arguments than the base: both readings are accepted (the evidence records which one the engine follows)",
+			"the statement does not define the text of an operand that evaluates to an error: for such operands exit, category and the match of has_error are judged, the stored operand text is not",
+			"for timeout and random routes the statement defines the category only: result value and input are not judged there",
+			"small-scope: at most 3 cases per router, the operand and argument alphabets listed in the rule",
+			"clock, UUID and random sources are owned by the harness; a random draw is forced by fixing the source's Int63 value (rand.Float64 = float64(Int63)/2^63)",
+		},
+		Run:    run,
+		Replay: replayFn,
+		Budget: map[string]time.Duration{"quick": 4 * time.Minute, "thorough": 25 * time.Minute},
+		Guards: guards,
+	})
+}
+
+func guards(r *mc.Result, tier string) []string {
+	var f []string
+	need := func(fact string) {
+		if r.Facts[fact] == 0 {
+			f = append(f, "never observed: "+fact)
+		}
+	}
+	for _, t := range Tests() {
+		need("match:" + t)
+		need("nomatch:" + t)
+		if _, ok := testVectors[t]; ok && t != "has_error" {
+			need("error:" + t)
+		}
+	}
+	for _, k := range []string{"lit", "miss", "expr", "count", "loc-base-hit", "loc-tr-hit", "loc-len", "alt"} {
+		need("match:kind:" + k)
+		need("nomatch:kind:" + k)
+	}
+	need("error:kind:argerr")
+	need("error:kind:count")
+	for _, v := range []string{"case", "default", "none", "timeout", "random", "first-exit"} {
+		need("via:" + v)
+	}
+	need("match-after:error")
+	need("match-after:nomatch")
+	need("localized-arguments-decided:match")
+	need("localized-arguments-decided:nomatch")
+	need("resume:msg")
+	need("resume:timeout")
+	for n := 2; n <= 4; n++ {
+		for k := 0; k < n; k++ {
+			need(fmt.Sprintf("random:n=%d:bucket=%d", n, k))
+		}
+	}
+	need("none:exits=1")
+	need("none:exits=2")
+	need("none:exits=0:definition-rejected")
+	if r.Facts["translation-of-different-length:engine-used-base-arguments"]+r.Facts["translation-of-different-length:engine-used-translation-arguments"] == 0 {
+		f = append(f, "a translation of different length never made a difference")
+	}
+	if r.Counters["result_values_judged"] == 0 {
+		f = append(f, "no result value was judged")
+	}
+	return f
+}
